@@ -54,6 +54,17 @@ structure Act where
   soft : Bool
   deriving Repr
 
+/-- a GLV shift (keeper only): `amount` market tokens of market `src` are redeemed and the proceeds deposited into
+market `dst`, all inside the GLV; nothing is escrowed. -/
+structure Shift where
+  state : Nat
+  src : Nat
+  dst : Nat
+  amount : Nat
+  createdAt : Int
+  execLamports : Nat
+  deriving Repr
+
 structure St where
   now : Int
   priceTs : Int
@@ -72,6 +83,12 @@ structure St where
   glvRec1 : Nat
   glvMinted : Nat
   glvBurned : Nat
+  shifts : Nat → Option Shift := fun _ => none
+  /-- `shift_last_executed_at` of the GLV -/
+  lastShiftAt : Int := 0
+
+/-- `DEFAULT_GLV_MIN_SHIFT_INTERVAL_SECS` -/
+def SHIFT_INTERVAL : Int := 3600
 
 def glvSupply (s : St) : Nat := s.glvMinted - s.glvBurned
 def St.glvVault (s : St) (m : Nat) : Nat := if m = 0 then s.glvVault0 else s.glvVault1
@@ -84,7 +101,8 @@ def setAct (s : St) (k : Nat) (x : Option Act) : St := { s with acts := fun i =>
 def slotOf (u k i : Nat) : Nat := u * 4 + k * 2 + i
 
 def init (long short : Nat) (now : Int) : St :=
-  ⟨now, 0, fun _ => ⟨long, short, 0, 0, 0⟩, fun _ => none, 0, 0, 0, 0, 0, 0, 0, 0, 0, 0⟩
+  { now := now, priceTs := 0, users := fun _ => ⟨long, short, 0, 0, 0⟩, acts := fun _ => none, vaultLong := 0, vaultShort := 0,
+    mtSupply0 := 0, mtSupply1 := 0, glvVault0 := 0, glvVault1 := 0, glvRec0 := 0, glvRec1 := 0, glvMinted := 0, glvBurned := 0 }
 
 def tick (s : St) (dt : Nat) : St := { s with now := s.now + dt }
 def price (s : St) (age : Nat) : St :=
@@ -180,6 +198,51 @@ def close (s : St) (who : Who) (slot : Nat) : Option St :=
       ({ usr with long := usr.long + act.escLong, short := usr.short + act.escShort, glv := usr.glv + act.escGlv }.addMt act.m act.escMt))
       slot none)
 
+/-! ### GLV shifts -/
+
+def setShift (s : St) (i : Nat) (x : Option Shift) : St := { s with shifts := fun k => if k = i then x else s.shifts k }
+
+/-- `create_glv_shift`: ORDER_KEEPER only; the two markets differ; the amount is non-zero and in the GLV vault; the
+shift interval since the last EXECUTED shift has passed. -/
+def screate (s : St) (who : Who) (i src dst amount execLamports : Nat) : Option St :=
+  if who ≠ .keeper ∨ i ≥ 2 ∨ src ≥ 2 ∨ dst ≥ 2 ∨ src = dst then none else
+  match s.shifts i with
+  | some _ => none
+  | none =>
+    if amount = 0 ∨ s.glvVault src < amount ∨ s.now < s.lastShiftAt + SHIFT_INTERVAL then none else
+    some (setShift s i (some ⟨0, src, dst, amount, s.now, execLamports⟩))
+
+/-- a completed shift with the declared `x` market tokens of `dst` received: market tokens only move between the GLV's
+own vaults (redeemed / minted), both recorded balances follow, the shared collateral vaults and the GLV supply do
+not change. -/
+def scomplete (s : St) (i : Nat) (sh : Shift) (x : Nat) : Option St :=
+  if s.glvRec sh.src < sh.amount ∨ s.mtSupply sh.src < sh.amount then none else
+  some (setShift { (glvIn (mintMt (glvOut (burnMt s sh.src sh.amount) sh.src sh.amount) sh.dst x) sh.dst x) with lastShiftAt := s.now }
+    i (some { sh with state := 1 }))
+
+/-- `execute_glv_shift` -/
+def sexec (s : St) (who : Who) (i fee : Nat) (throw fail : Bool) (x : Nat) : Option (St × Outcome × Nat) :=
+  if who ≠ .keeper ∨ i ≥ 2 then none else
+  match s.shifts i with
+  | none => none
+  | some sh =>
+    if sh.state ≠ 0 then none else
+    if s.now - s.priceTs > HEARTBEAT then none else
+    if s.priceTs < sh.createdAt then none else
+    let paid := if fee ≤ sh.execLamports then fee else sh.execLamports
+    let soft : Option (St × Outcome × Nat) :=
+      if throw then none else some (setShift s i (some { sh with state := 2 }), .cancelled, paid)
+    if sh.createdAt + REQUEST_EXPIRATION < s.priceTs then soft
+    else if fail ∨ s.now < s.lastShiftAt + SHIFT_INTERVAL ∨ s.glvVault sh.src < sh.amount then soft
+    else (scomplete s i sh x).map (fun s' => (s', .completed, paid))
+
+/-- `close_glv_shift`: ORDER_KEEPER only, in any state -/
+def sclose (s : St) (who : Who) (i : Nat) : Option St :=
+  if who ≠ .keeper ∨ i ≥ 2 then none else
+  match s.shifts i with
+  | none => none
+  | some _ => some (setShift s i none)
+
 inductive Op where
   | tick (dt : Nat)
   | price (age : Nat)
@@ -187,6 +250,9 @@ inductive Op where
   | create (u k i m a b c : Nat) (soft : Bool) (execLamports : Nat)
   | exec (who : Who) (slot fee : Nat) (throw fail : Bool) (x y z : Nat)
   | close (who : Who) (slot : Nat)
+  | screate (who : Who) (i src dst amount execLamports : Nat)
+  | sexec (who : Who) (i fee : Nat) (throw fail : Bool) (x : Nat)
+  | sclose (who : Who) (i : Nat)
 
 inductive Event where
   | none
@@ -203,6 +269,9 @@ def step (s : St) : Op → St × Event
   | .create u k i m a b c soft el => match create s u k i m a b c soft el with | some s' => (s', .created (slotOf u k i)) | none => (s, .none)
   | .exec who slot fee throw fail x y z => match exec s who slot fee throw fail x y z with | some (s', o, _) => (s', .executed slot o) | none => (s, .none)
   | .close who slot => match close s who slot with | some s' => (s', .closed slot) | none => (s, .none)
+  | .screate who i a b c el => match screate s who i a b c el with | some s' => (s', .created (NSLOTS + i)) | none => (s, .none)
+  | .sexec who i fee throw fail x => match sexec s who i fee throw fail x with | some (s', o, _) => (s', .executed (NSLOTS + i) o) | none => (s, .none)
+  | .sclose who i => match sclose s who i with | some s' => (s', .closed (NSLOTS + i)) | none => (s, .none)
 
 def run (s : St) : List Op → St × List Event
   | [] => (s, [])
